@@ -119,6 +119,13 @@ Step ==
                      ELSE IF e.op = "uint_dec" THEN JudgeUintDec(e) ELSE JudgeStr(e) IN
             /\ bad' = IF j = {} THEN bad ELSE AddBad(bad, BadEntry(l, j, "typed option value"))
             /\ UNCHANGED << pkt, tkl, live >>
+       [] e.op = "hdr_ser" ->
+            \* HeaderRaw::serialize_into: appends the four header bytes to whatever the buffer holds, refuses a
+            \* buffer whose capacity is below four, and the vector's length never exceeds its capacity
+            LET good == IF e.cap < 4 THEN e.out.k = "err" /\ e.out.bytes = e.pre /\ e.out.fits
+                        ELSE e.out.k = "ok" /\ e.out.bytes = e.pre \o e.hdr /\ e.out.fits IN
+            /\ bad' = IF good THEN bad ELSE AddBad(bad, BadEntry(l, {"C04"}, "header serialisation"))
+            /\ UNCHANGED << pkt, tkl, live >>
        [] e.op = "to_bytes" ->
             LET j == JudgeToBytes(e) IN
             /\ bad' = IF j = {} THEN bad
